@@ -59,15 +59,16 @@ func main() {
 		r.SetRule("case = one run of MapIterator or MapStream on a tuple (api, length, parallelism, bufferSize, f-latency pattern, " +
 			"consumer pace, fault plan [none | f fails at given indices | source fails after p items | both | Close after k results with f " +
 			"ignoring / honouring / blocking on its context | caller cancels the construction context], per-call context expiry on/off); " +
-			"the (length, parallelism, bufferSize) grid of 150 cells is enumerated by case index, the rest is drawn from the seed. " +
+			"the (length, parallelism, bufferSize) grid of 150 cells is enumerated by case index, the rest is drawn from the seed; " +
+			"parallelism -1 counts once per GOMAXPROCS value it resolved to. " +
 			"non-trivial = the source had >= 2 items (order can matter); distinct = by the tuple with fault / close positions bucketed " +
 			"into {0, 1, middle, len-1, len}. Cases with < 2 items are run and judged but not counted.")
 		r.Assume("f is a pure function of the item and the source hands out each item once (both are the monitor's own)")
 		r.Assume("parallelism <= 0 means runtime.GOMAXPROCS at the time of the call")
 		r.Assume("the goroutine dump format of the Go runtime in use (go1.23) — used for the STUCK verdict and the leak check")
 
-		nIter := r.Scale(600, 3000)
-		nStream := r.Scale(1500, 7500)
+		nIter := r.Scale(900, 3600)
+		nStream := r.Scale(2400, 9000)
 		workers := 4
 		if runtime.GOMAXPROCS(0) < 4 {
 			workers = 2
@@ -364,7 +365,7 @@ func (pl *plan) key() string {
 	if len(pl.FailAt) > 0 {
 		fa = fmt.Sprintf("%dx%s", len(pl.FailAt), bucket(pl.FailAt[0], pl.N))
 	}
-	return fmt.Sprintf("%s|%d|%d|%d|%s|%s|%s|f%s|s%s|c%s|%s|o%s|x%v|g%v", pl.API, pl.N, pl.Par, pl.Buf, pl.Lat, pl.Pace, pl.Mode,
+	return fmt.Sprintf("%s|%d|%d/%d|%d|%s|%s|%s|f%s|s%s|c%s|%s|o%s|x%v|g%v", pl.API, pl.N, pl.Par, pl.P, pl.Buf, pl.Lat, pl.Pace, pl.Mode,
 		fa, bucket(pl.SrcErrAt, pl.N), bucket(pl.CloseAt, pl.N), pl.FMode, bucket(pl.OuterAt, pl.N), pl.Expiry, pl.Strag >= 0)
 }
 
